@@ -1039,6 +1039,7 @@ func (s *source) fetch(consumerSession *consumerSession, doneFetch chan<- bool) 
 
 	resp := kresp.(*kmsg.FetchResponse)
 	fetch, reloadOffsets, preferreds, allErrsStripped, updateWhy := s.handleReqResp(br, req, resp)
+	verifPoint("source.fetch.handled")
 
 	deleteReqUsedOffset := func(topic string, partition int32) {
 		t := req.usedOffsets[topic]
@@ -1157,6 +1158,7 @@ func (s *source) fetch(consumerSession *consumerSession, doneFetch chan<- bool) 
 		}
 	}
 
+	verifPoint("source.fetch.prebuffer")
 	if fetch.hasErrorsOrRecords() {
 		buffered = true
 		s.buffered = bufferedFetch{
